@@ -424,7 +424,7 @@ func genCase(t *rapid.T) Case {
 		return Case{Entry: "doc", Text: s}
 	}
 	p := gen.Project(t, gen.ProjectOpts{KeyType: true, RegexType: true, Container: true, EnumNotes: true})
-	lay := gen.Layout(t, gen.LayoutOpts{})
+	lay := gen.Layout(t, gen.LayoutOpts{Esc: 2})
 	if rapid.IntRange(0, 2).Draw(t, "leadindent") == 0 {
 		lay.LineIndent = 3
 	}
